@@ -96,6 +96,544 @@ def scrape_filesz_to_types():
     return bonus, tryall, guards
 
 
+
+# ----------------------------------------------------------------------------- as_bytes / score_fixedstruct
+def harness_fields():
+    """`c08 fields`: every field of every struct (path -> kind, offset, size) from the compiled
+    structs, the pub constants and tables used by as_bytes / score_fixedstruct"""
+    import vlib
+    p = subprocess.run([vlib.harness_bin("c08"), "fields"], stdout=subprocess.PIPE, stderr=subprocess.PIPE, timeout=60)
+    if p.returncode != 0:
+        raise ScrapeError("c08 fields failed: " + p.stderr.decode("utf-8", "replace")[-500:])
+    structs, consts, uttypes, utnames, discr = {}, {}, {}, {}, {}
+    for line in p.stdout.decode().splitlines():
+        v = line.split("\t")
+        if v[0] == "F":
+            fl = {}
+            for f in v[3].split(","):
+                path, kind, off, size = f.split(":")
+                fl[path] = (kind, int(off), int(size))
+            structs[v[1]] = (v[2], fl)
+        elif v[0] == "O":
+            discr[v[1]] = int(v[2])
+        elif v[0] == "K":
+            consts[v[1]] = int(v[2])
+        elif v[0] == "T":
+            uttypes[v[1]] = [int(x) for x in v[2].split(",")]
+        elif v[0] == "N":
+            utnames[int(v[1])] = v[2]
+    if len(structs) < 1 or not utnames:
+        raise ScrapeError("c08 fields printed nothing usable")
+    names = [utnames[i] for i in range(len(utnames))]
+    if set(discr) != set(structs) or len(set(discr.values())) != len(discr):
+        raise ScrapeError("c08 fields: enum discriminants missing or not distinct")
+    consts["__order__"] = [t for t, _ in sorted(discr.items(), key=lambda kv: kv[1])]
+    return structs, consts, uttypes, names
+
+
+def statements(body):
+    """split a block body (without its outer braces) into statements:
+    ('let', text) | ('macro', name, [args]) | ('assign', text) | ('if', cond, then_body, else_body or None)"""
+    out = []
+    i, n = 0, len(body)
+    while True:
+        while i < n and body[i] in " \t\r\n;":
+            i += 1
+        if i >= n:
+            return out
+        m = re.compile(r"let\b").match(body, i)
+        if m:
+            j = body.index(";", i)
+            out.append(("let", body[i:j].strip()))
+            i = j + 1
+            continue
+        m = re.compile(r"if\b").match(body, i)
+        if m:
+            b = body.index("{", i)
+            cond = body[m.end():b].strip()
+            e = balanced(body, b)
+            then = body[b + 1:e - 1]
+            k = e
+            while k < n and body[k] in " \t\r\n":
+                k += 1
+            els = None
+            if body.startswith("else", k):
+                b2 = body.index("{", k)
+                if body[k + 4:b2].strip():
+                    raise ScrapeError("else-if not understood: %r" % body[k:k + 60])
+                e2 = balanced(body, b2)
+                els = body[b2 + 1:e2 - 1]
+                e = e2
+            out.append(("if", cond, then, els))
+            i = e
+            continue
+        m = re.compile(r"(\w+)!\s*\(").match(body, i)
+        if m:
+            b = m.end() - 1
+            e = balanced(body, b, "(", ")")
+            out.append(("macro", m.group(1), split_args(body[b + 1:e - 1])))
+            i = e
+            continue
+        m = re.compile(r"[\w\.]+\s*(?:-=|\+=|=)[^=]").match(body, i)
+        if m:
+            j = body.index(";", i)
+            out.append(("assign", re.sub(r"\s+", " ", body[i:j].strip())))
+            i = j + 1
+            continue
+        raise ScrapeError("statement not understood: %r" % body[i:i + 80])
+
+
+def split_args(text):
+    """split macro arguments at top-level commas (string / char literals and brackets respected)"""
+    args, depth, cur, i, n = [], 0, [], 0, len(text)
+    while i < n:
+        c = text[i]
+        if c == '"':
+            j = i + 1
+            while text[j] != '"':
+                j += 2 if text[j] == "\\" else 1
+            cur.append(text[i:j + 1])
+            i = j + 1
+            continue
+        if c == "'" and (text.startswith("'\\", i) and text[i + 3:i + 4] == "'"):
+            cur.append(text[i:i + 4])
+            i += 4
+            continue
+        if c == "'" and text[i + 2:i + 3] == "'":
+            cur.append(text[i:i + 3])
+            i += 3
+            continue
+        if c in "([{":
+            depth += 1
+        elif c in ")]}":
+            depth -= 1
+        if c == "," and depth == 0:
+            args.append("".join(cur).strip())
+            cur = []
+        else:
+            cur.append(c)
+        i += 1
+    if "".join(cur).strip():
+        args.append("".join(cur).strip())
+    return args
+
+
+def rust_str(lit):
+    """bytes of a Rust string literal "..." or byte literal b'.'"""
+    m = re.fullmatch(r'"((?:[^"\\]|\\.)*)"', lit)
+    if m:
+        body = m.group(1)
+    else:
+        m = re.fullmatch(r"b'((?:[^'\\]|\\.))'", lit)
+        if not m:
+            raise ScrapeError("literal not understood: %r" % lit)
+        body = m.group(1)
+    out, i = [], 0
+    esc = {"n": 10, "0": 0, "t": 9, "r": 13, "\\": 92, "'": 39, '"': 34}
+    while i < len(body):
+        if body[i] == "\\":
+            if body[i + 1] not in esc:
+                raise ScrapeError("escape not understood in %r" % lit)
+            out.append(esc[body[i + 1]])
+            i += 2
+        else:
+            out += list(body[i].encode("utf-8"))
+            i += 1
+    return out
+
+
+def fn_body(src, header_re, what):
+    m = re.search(header_re, src)
+    if not m:
+        raise ScrapeError(what + " not found")
+    b = src.index("{", m.end() - 1)
+    return src[b:balanced(src, b)]
+
+
+def type_arms(fnbody, scrutinee_re):
+    """arms `FixedStructType::X => { ... }` of the match on the type inside a function body"""
+    m = re.search(scrutinee_re, fnbody)
+    if not m:
+        raise ScrapeError("match on the fixedstruct type not found")
+    b = fnbody.index("{", m.end() - 1)
+    e = balanced(fnbody, b)
+    body = fnbody[b + 1:e - 1]
+    arms, i, n = {}, 0, len(body)
+    while True:
+        while i < n and body[i] in " \t\r\n,":
+            i += 1
+        if i >= n:
+            break
+        m = re.compile(r"FixedStructType::(\w+)\s*=>\s*\{").match(body, i)
+        if not m:
+            raise ScrapeError("arm not understood: %r" % body[i:i + 60])
+        b2 = m.end() - 1
+        e2 = balanced(body, b2)
+        if m.group(1) in arms:
+            raise ScrapeError("two arms for " + m.group(1))
+        arms[m.group(1)] = body[b2 + 1:e2 - 1]
+        i = e2
+    return arms, fnbody[e:]
+
+
+def cstr_accessors(src):
+    """(module, struct, accessor) -> field whose address CStr::from_ptr receives"""
+    acc = {}
+    for mm in re.finditer(r"pub\s+mod\s+(\w+)\s*\{", src):
+        mb = mm.end() - 1
+        mod_body = src[mb:balanced(src, mb)]
+        for im in re.finditer(r"\bimpl\s+(\w+)\s*\{", mod_body):
+            ib = im.end() - 1
+            ibody = mod_body[ib:balanced(mod_body, ib)]
+            for fm in re.finditer(r"pub\s+fn\s+(\w+)\s*\(\s*&self\s*\)\s*->\s*&CStr\s*\{", ibody):
+                fb = fm.end() - 1
+                fbody = ibody[fb:balanced(ibody, fb)]
+                m = re.fullmatch(r"\{\s*unsafe\s*\{\s*CStr::from_ptr\(\s*self\.(\w+)(?:\[\.\.\w+\])?\.as_ptr\(\)\s*\)\s*\}\s*\}", fbody)
+                if not m:
+                    raise ScrapeError("CStr accessor %s::%s::%s of unexpected shape" % (mm.group(1), im.group(1), fm.group(1)))
+                acc[(mm.group(1), im.group(1), fm.group(1))] = m.group(1)
+    return acc
+
+
+def bind_var(stmts, what):
+    """the leading `let v: &module::st = x.as_...();` of an arm -> (var, module, struct)"""
+    if not stmts or stmts[0][0] != "let":
+        raise ScrapeError(what + ": arm does not start with a let")
+    m = re.fullmatch(r"let\s+(\w+)\s*:\s*&(\w+)::(\w+)\s*=\s*\w+\.as_(\w+)\(\)", stmts[0][1])
+    if not m or m.group(4) != (m.group(2) + "_" + m.group(3)).lower():
+        raise ScrapeError(what + ": binding not understood: " + stmts[0][1])
+    return m.group(1), m.group(2), m.group(3)
+
+
+def field_of(expr, var, fields, what):
+    m = re.fullmatch(re.escape(var) + r"\.([\w\.]+)", expr)
+    if not m or m.group(1) not in fields:
+        raise ScrapeError("%s: field expression %r not among the compiled struct's fields" % (what, expr))
+    return (m.group(1),) + fields[m.group(1)]
+
+
+def scrape_as_bytes(src, structs, consts, utnames):
+    body = fn_body(src, r"pub\s+fn\s+as_bytes\s*\(\s*self\s*:\s*&FixedStruct\s*,\s*buffer\s*:\s*&mut\s*\[u8\]\s*\)\s*->\s*InfoAsBytes\s*\{", "fn as_bytes")
+    arms, rest = type_arms(body, r"match\s+entry\.fixedstruct_type\(\)\s*\{")
+    tail = []
+    mend = re.search(r"InfoAsBytes::Ok\(\s*at\s*,\s*dt_beg\s*,\s*dt_end\s*\)\s*\}\s*$", rest)
+    if not mend:
+        raise ScrapeError("as_bytes does not end with InfoAsBytes::Ok(at, dt_beg, dt_end)")
+    for st in statements(rest[:mend.start()]):
+        if st[0] == "macro" and st[1] == "set_buffer_at_or_err_u8" and st[2][:2] == ["buffer", "at"]:
+            tail += rust_str(st[2][2])
+        elif st[0] == "macro" and st[1] in ("debug_assert_le",):
+            continue
+        elif st[0] == "macro" and st[1] == "Ok" or (st[0] == "assign"):
+            raise ScrapeError("as_bytes tail not understood")
+        elif st[0] == "macro":
+            raise ScrapeError("as_bytes tail: unexpected macro " + st[1])
+    progs = {}
+    for typ, abody in arms.items():
+        if typ not in structs:
+            raise ScrapeError("as_bytes arm for unknown type " + typ)
+        stname, fields = structs[typ]
+        stmts = statements(abody)
+        var, mod, st = bind_var(stmts, "as_bytes " + typ)
+        if stname != "%s::%s" % (mod, st):
+            raise ScrapeError("as_bytes %s binds %s::%s, the harness lists %s" % (typ, mod, st, stname))
+        items = []
+        dt = {}
+
+        def lit(bs):
+            if items and items[-1][0] == "lit":
+                items[-1] = ("lit", items[-1][1] + bs)
+            else:
+                items.append(("lit", list(bs)))
+        for sx in stmts[1:]:
+            what = "as_bytes %s" % typ
+            if sx[0] == "assign":
+                m = re.fullmatch(r"(dt_beg|dt_end) = at", sx[1])
+                if not m or m.group(1) in dt:
+                    raise ScrapeError("%s: assignment not understood: %s" % (what, sx[1]))
+                dt[m.group(1)] = len(items)
+                items.append(("mark", m.group(1)))
+                continue
+            if sx[0] == "macro":
+                name, a = sx[1], sx[2]
+                if a[:2] != ["buffer", "at"]:
+                    raise ScrapeError("%s: macro %s without (buffer, at, ..)" % (what, name))
+                if name in ("set_buffer_at_or_err_str", "set_buffer_at_or_err_u8") and len(a) == 3:
+                    lit(rust_str(a[2]))
+                elif name == "set_buffer_at_or_err_cstrn" and len(a) == 3:
+                    p, k, off, sz = field_of(a[2], var, fields, what)
+                    if k not in ("c", "b"):
+                        raise ScrapeError("%s: cstrn of non-array field %s" % (what, p))
+                    items.append(("cstr", off, sz, k == "c", p))
+                elif name == "set_buffer_at_or_err_number" and len(a) == 4:
+                    p, k, off, sz = field_of(a[2], var, fields, what)
+                    if k not in ("i", "u") or sz > 8:
+                        raise ScrapeError("%s: number of field %s kind %s" % (what, p, k))
+                    items.append(("num", off, sz, k == "i", p))
+                elif name == "set_buffer_at_or_err_number_f32" and len(a) == 4:
+                    p, k, off, sz = field_of(a[2], var, fields, what)
+                    if k != "f" or sz != 4:
+                        raise ScrapeError("%s: f32 of field %s kind %s" % (what, p, k))
+                    items.append(("f32", off, p))
+                elif name == "set_buffer_at_or_err_number_bin4" and len(a) == 4:
+                    p, k, off, sz = field_of(a[2], var, fields, what)
+                    if sz != 1:
+                        raise ScrapeError("%s: bin4 of field %s size %d" % (what, p, sz))
+                    items.append(("bin4", off, p))
+                elif name in ("set_buffer_at_or_err_ut_type_i16", "set_buffer_at_or_err_ut_type_u16") and len(a) == 3:
+                    p, k, off, sz = field_of(a[2], var, fields, what)
+                    if sz != 2 or (k == "i") != name.endswith("i16"):
+                        raise ScrapeError("%s: ut_type macro %s on field %s kind %s size %d" % (what, name, p, k, sz))
+                    items.append(("uttype", off, sz, k == "i", p))
+                else:
+                    raise ScrapeError("%s: macro %s not understood" % (what, name))
+                continue
+            if sx[0] == "if":
+                cond, then, els = sx[1], statements(sx[2]), (statements(sx[3]) if sx[3] is not None else None)
+                m = re.fullmatch(re.escape(var) + r"\.(\w+)\s*!=\s*0", cond)
+                if m and els is None:
+                    # the flag-name list
+                    p, k, off, sz = field_of(var + "." + m.group(1), var, fields, what)
+                    if sz != 1:
+                        raise ScrapeError("%s: flag field %s size %d" % (what, p, sz))
+                    opn, names, cls, phase = [], [], [], 0
+                    for t in then:
+                        if t[0] == "macro" and t[1] == "set_buffer_at_or_err_str" and t[2][:2] == ["buffer", "at"] and len(t[2]) == 3:
+                            if phase == 0:
+                                opn += rust_str(t[2][2])
+                            elif phase == 2:
+                                cls += rust_str(t[2][2])
+                            else:
+                                raise ScrapeError("%s: flag block: literal in the middle" % what)
+                        elif t[0] == "if" and t[3] is None:
+                            m2 = re.fullmatch(re.escape(var) + r"\." + re.escape(m.group(1)) + r"\s*&\s*(\w+::\w+)\s*!=\s*0", t[1])
+                            if m2:
+                                if phase > 1 or m2.group(1) not in consts:
+                                    raise ScrapeError("%s: flag block: test %s" % (what, t[1]))
+                                phase = 1
+                                inner = statements(t[2])
+                                if len(inner) != 1 or inner[0][0] != "macro" or inner[0][1] != "set_buffer_at_or_err_str":
+                                    raise ScrapeError("%s: flag block: body of %s" % (what, t[1]))
+                                names.append((consts[m2.group(1)], rust_str(inner[0][2][2])))
+                            elif re.fullmatch(r"buffer\[at - 1\]\s*==\s*b'\|'", t[1]):
+                                inner = statements(t[2])
+                                if inner != [("assign", "at -= 1")] or phase != 1:
+                                    raise ScrapeError("%s: flag block: trailing-bar rewrite" % what)
+                                phase = 2
+                            else:
+                                raise ScrapeError("%s: flag block: condition %s" % (what, t[1]))
+                        else:
+                            raise ScrapeError("%s: flag block: statement %r" % (what, t[:2]))
+                    if phase != 2 or any(nm[-1:] != [124] for _, nm in names):
+                        raise ScrapeError("%s: flag block incomplete" % what)
+                    items.append(("flaglist", off, opn, names, cls, p))
+                    continue
+                m = re.fullmatch(re.escape(var) + r"\.(\w+)\[1\.\.4\]\.iter\(\)\.all\(\|&x\|\s*x\s*==\s*0\)", cond)
+                if m and els is not None:
+                    p, k, off, sz = field_of(var + "." + m.group(1), var, fields, what)
+                    if k != "a4" or sz != 16:
+                        raise ScrapeError("%s: address field %s kind %s size %d" % (what, p, k, sz))
+
+                    def two(block, mac, argre):
+                        if (len(block) != 2 or block[0][0] != "macro" or block[0][1] != "set_buffer_at_or_err_str"
+                                or block[1][0] != "macro" or block[1][1] != mac
+                                or not re.fullmatch(argre, block[1][2][2])):
+                            raise ScrapeError("%s: address block not understood" % what)
+                        return rust_str(block[0][2][2])
+                    l4 = two(then, "set_buffer_at_or_err_ipv4", re.escape(var + "." + m.group(1)) + r"\[0\]")
+                    l6 = two(els, "set_buffer_at_or_err_ipv6", re.escape(var + "." + m.group(1)))
+                    items.append(("addr", off, l4, l6, p))
+                    continue
+                raise ScrapeError("%s: if (%s) not understood" % (what, cond))
+            raise ScrapeError("%s: statement %r not understood" % (what, sx[:2]))
+        if set(dt) != {"dt_beg", "dt_end"} or dt["dt_beg"] > dt["dt_end"]:
+            raise ScrapeError("as_bytes %s: dt_beg/dt_end marks" % typ)
+        progs[typ] = items
+    return progs, tail
+
+
+SCORE_MACROS = {
+    "score_fixedstruct_cstr": "cstr", "score_fixedstruct_cstr_no_data_after_null": "nodata",
+    "score_fixedstruct_cstr_null_terminator": "nullterm", "score_fixedstruct_buffer_all_null": "allnull",
+    "score_fixedstruct_value_not_zero": "notzero", "score_fixedstruct_ut_type": "uttype",
+    "score_fixedstruct_ac_flags": "acflags", "score_fixedstruct_time_range": "time",
+}
+
+
+def scrape_score(src, structs, consts, uttypes):
+    body = fn_body(src, r"pub\s+fn\s+score_fixedstruct\s*\(\s*fixedstructptr\s*:\s*&FixedStructDynPtr\s*,\s*bonus\s*:\s*Score\s*\)\s*->\s*Score\s*\{", "fn score_fixedstruct")
+    head = body[:re.search(r"match\s+fixedstructptr\.fixedstruct_type\(\)\s*\{", body).start()]
+    if not re.search(r"let\s+mut\s+score\s*:\s*Score\s*=\s*0\s*;", head) or not re.search(r"if\s+bonus\s*>\s*0\s*\{\s*score\s*\+=\s*bonus\s*;", re.sub(r"def\w+!\([^;]*;", "", head)):
+        raise ScrapeError("score_fixedstruct prologue (score = 0; if bonus > 0 { score += bonus }) not found")
+    arms, rest = type_arms(body, r"match\s+fixedstructptr\.fixedstruct_type\(\)\s*\{")
+    if not re.fullmatch(r"\s*(?:def\w+!\([^;]*;\s*)*score\s*\}\s*", rest):
+        raise ScrapeError("score_fixedstruct does not end with `score`")
+    acc = cstr_accessors(src)
+    low = re.search(r"const\s+EPOCH_SECOND_LOW\s*:\s*tv_sec_type\s*=\s*(\d+)\s*;", src)
+    high = re.search(r"const\s+EPOCH_SECOND_HIGH\s*:\s*tv_sec_type\s*=\s*(\d+)\s*;", src)
+    if not low or not high:
+        raise ScrapeError("EPOCH_SECOND_LOW/HIGH not found")
+    low, high = int(low.group(1)), int(high.group(1))
+    progs = {}
+    for typ, abody in arms.items():
+        if typ not in structs:
+            raise ScrapeError("score arm for unknown type " + typ)
+        stname, fields = structs[typ]
+        stmts = statements(abody)
+        var, mod, st = bind_var(stmts, "score " + typ)
+        if stname != "%s::%s" % (mod, st):
+            raise ScrapeError("score %s binds %s::%s, the harness lists %s" % (typ, mod, st, stname))
+        items = []
+        for sx in stmts[1:]:
+            what = "score %s" % typ
+            if sx[0] != "macro" or sx[1] not in SCORE_MACROS or sx[2][0] != "score":
+                raise ScrapeError("%s: statement %r not understood" % (what, sx[:2]))
+            k, a = SCORE_MACROS[sx[1]], sx[2]
+            if k == "cstr":
+                m = re.fullmatch(re.escape(var) + r"\.(\w+)\(\)", a[1])
+                if not m or (mod, st, m.group(1)) not in acc:
+                    raise ScrapeError("%s: CStr accessor %s" % (what, a[1]))
+                p, kind, off, sz = field_of(var + "." + acc[(mod, st, m.group(1))], var, fields, what)
+                items.append(("cstr", off, p))
+            elif k in ("nodata", "nullterm", "allnull"):
+                p, kind, off, sz = field_of(a[1], var, fields, what)
+                if kind not in ("c", "b") or sz < 1:
+                    raise ScrapeError("%s: %s of non-array field %s" % (what, k, p))
+                items.append((k, off, sz, p))
+            elif k == "notzero":
+                p, kind, off, sz = field_of(a[1], var, fields, what)
+                items.append((k, off, sz, p))
+            elif k == "uttype":
+                p, kind, off, sz = field_of(a[1], var, fields, what)
+                m = re.fullmatch(r"(\w+)::UT_TYPES", a[2])
+                if not m or m.group(1) not in uttypes or kind not in ("i", "u"):
+                    raise ScrapeError("%s: ut_type table %s" % (what, a[2]))
+                items.append((k, off, sz, kind == "i", uttypes[m.group(1)], p))
+            elif k == "acflags":
+                p, kind, off, sz = field_of(a[1], var, fields, what)
+                if a[2] not in consts or sz != 1:
+                    raise ScrapeError("%s: flag mask %s" % (what, a[2]))
+                items.append((k, off, consts[a[2]], p))
+            elif k == "time":
+                p, kind, off, sz = field_of(a[1], var, fields, what)
+                if kind not in ("i", "u") or sz > 8 or (kind == "u" and sz == 8):
+                    raise ScrapeError("%s: time field %s kind %s size %d" % (what, p, kind, sz))
+                items.append((k, off, sz, kind == "i", low, high, p))
+        progs[typ] = items
+    return progs
+
+
+# the bodies of these macros / functions are transcribed by hand into Model/RecordRender.v and
+# Model/LayoutDetect.v (and tied by the correspondence run); a change of their text must be noticed
+HAND_TRANSCRIBED = [
+    "set_buffer_at_or_err_u8", "set_buffer_at_or_err_i8", "set_buffer_at_or_err_u8_array", "set_buffer_at_or_err_str",
+    "set_buffer_at_or_err_string", "set_buffer_at_or_err_cstrn", "set_buffer_at_or_err_ut_type",
+    "set_buffer_at_or_err_ut_type_i16", "set_buffer_at_or_err_ut_type_u16", "set_buffer_at_or_err_number",
+    "set_buffer_at_or_err_number_f32", "set_buffer_at_or_err_number_bin4", "set_buffer_at_or_err_ipv4",
+    "set_buffer_at_or_err_ipv6", "score_fixedstruct_cstr", "score_fixedstruct_cstr_no_data_after_null",
+    "score_fixedstruct_cstr_null_terminator", "score_fixedstruct_buffer_all_null", "score_fixedstruct_value_not_zero",
+    "score_fixedstruct_ut_type", "score_fixedstruct_ac_flags", "score_fixedstruct_time_range",
+]
+FROZEN_FINGERPRINT = "9d746bfec833af83f3f7e41acd542f2a"
+
+
+def transcribed_fingerprint(src, src_reader):
+    import hashlib
+    h = hashlib.sha256()
+    for name in HAND_TRANSCRIBED:
+        m = re.search(r"macro_rules!\s+%s\s*\{" % name, src)
+        if not m:
+            raise ScrapeError("macro %s not found" % name)
+        b = m.end() - 1
+        text = src[b:balanced(src, b)]
+        text = re.sub(r"def\w+!\s*\((?:[^()]|\([^()]*\))*\)\s*;", "", text)      # debug traces
+        h.update(re.sub(r"\s+", "", text).encode())
+    sf = fn_body(src_reader, r"pub\s+fn\s+score_file\s*\(", "fn score_file")
+    sf = re.sub(r"def\w+!\s*\((?:[^()]|\([^()]*\))*\)\s*;", "", sf)
+    sf = re.sub(r"#\[cfg\(debug_assertions\)\]\s*\{(?:[^{}]|\{(?:[^{}]|\{[^{}]*\})*\})*\}", "", sf)
+    h.update(re.sub(r"\s+", "", sf).encode())
+    b2f = fn_body(src, r"pub\s+fn\s+buffer_to_fixedstructptr\s*\(", "fn buffer_to_fixedstructptr")
+    b2f = b2f[:b2f.index("let entry: FixedStructDynPtr")] if "let entry: FixedStructDynPtr" in b2f else b2f
+    b2f = re.sub(r"def\w+!\s*\((?:[^()]|\([^()]*\))*\)\s*;", "", b2f)
+    h.update(re.sub(r"\s+", "", b2f).encode())
+    return h.hexdigest()[:32]
+
+
+def scrape_candidate_order(src_reader):
+    """score_file must sort the candidates by `*fixedstructtype as usize` before its loop (fix commit
+    a9566a30); without that statement the order is that of a HashMap: unspecified"""
+    sf = fn_body(src_reader, r"pub\s+fn\s+score_file\s*\(", "fn score_file")
+    m = re.search(r"let\s+mut\s+types_to_bonus\s*:\s*Vec<\(FixedStructType,\s*Score\)>\s*=\s*types_to_bonus\.into_iter\(\)\.collect\(\)\s*;\s*"
+                  r"types_to_bonus\.sort_by_key\(\|\(fixedstructtype,\s*_bonus\)\|\s*\*fixedstructtype\s+as\s+usize\)\s*;", sf)
+    loop = re.search(r"for\s*\(fixedstructtype,\s*bonus\)\s*in\s*types_to_bonus\.into_iter\(\)", sf)
+    if not loop:
+        raise ScrapeError("score_file: the loop over types_to_bonus not found")
+    return bool(m and m.end() <= loop.start())
+
+
+def scrape_score_file_consts(src, src_reader):
+    m = re.search(r"const\s+BONUS\s*:\s*Score\s*=\s*(\d+)\s*;", fn_body(src, r"fn\s+filesz_to_types\s*\(", "fn filesz_to_types"))
+    if not m:
+        raise ScrapeError("BONUS not found in filesz_to_types")
+    sf = fn_body(src_reader, r"pub\s+fn\s+score_file\s*\(", "fn score_file")
+    m2 = re.search(r"#\[cfg\(not\(test\)\)\]\s*const\s+COUNT_FOUND_ENTRIES_MAX\s*:\s*usize\s*=\s*(\d+)\s*;", sf)
+    if not m2:
+        raise ScrapeError("COUNT_FOUND_ENTRIES_MAX (cfg(not(test))) not found in score_file")
+    return int(m.group(1)), int(m2.group(1))
+
+
+def cbytes(bs):
+    if bs and all(0x20 <= b <= 0x7E and b != 0x22 for b in bs):
+        return '(s2b "%s")' % bytes(bs).decode()
+    return "[%s]" % "; ".join(str(b) for b in bs)
+
+
+def cbool(b):
+    return "true" if b else "false"
+
+
+def coq_ritem(it, utnames):
+    k = it[0]
+    if k == "lit":
+        return "RLit %s" % cbytes(it[1])
+    if k == "cstr":
+        return "RCstr %d %d %s" % (it[1], it[2], cbool(it[3]))
+    if k == "num":
+        return "RNum %d %d %s" % (it[1], it[2], cbool(it[3]))
+    if k == "uttype":
+        return "RUtType %d %d %s ut_type_names" % (it[1], it[2], cbool(it[3]))
+    if k == "bin4":
+        return "RBin4 %d" % it[1]
+    if k == "flaglist":
+        return "RFlagList %d %s [%s] %s" % (it[1], cbytes(it[2]), "; ".join("(%d, %s)" % (m, cbytes(n)) for m, n in it[3]), cbytes(it[4]))
+    if k == "f32":
+        return "RF32 %d" % it[1]
+    if k == "addr":
+        return "RAddr %d %s %s" % (it[1], cbytes(it[2]), cbytes(it[3]))
+    raise ScrapeError("item kind " + k)
+
+
+def coq_sitem(it):
+    k = it[0]
+    if k == "cstr":
+        return "SCstr %d" % it[1]
+    if k == "nodata":
+        return "SNoDataAfterNull %d %d" % (it[1], it[2])
+    if k == "nullterm":
+        return "SNullTerm %d %d" % (it[1], it[2])
+    if k == "allnull":
+        return "SAllNull %d %d" % (it[1], it[2])
+    if k == "notzero":
+        return "SValueNotZero %d %d" % (it[1], it[2])
+    if k == "uttype":
+        return "SUtType %d %d %s ([%s])%%Z" % (it[1], it[2], cbool(it[3]), "; ".join("%d" % v for v in it[4]))
+    if k == "acflags":
+        return "SAcFlags %d %d" % (it[1], it[2])
+    if k == "time":
+        return "STimeRange %d %d %s %d %d" % (it[1], it[2], cbool(it[3]), it[4], it[5])
+    raise ScrapeError("score item kind " + k)
+
+
 def cs(s):
     if not re.fullmatch(r"[A-Za-z0-9_]+", s):
         raise ScrapeError("unexpected identifier %r" % s)
@@ -105,11 +643,40 @@ def cs(s):
 def generate():
     rows, consts = harness_layouts()
     bonus, tryall, guards = scrape_filesz_to_types()
+    structs, kconsts, uttypes, utnames = harness_fields()
+    szfo = {}
+    for g, _ in guards:
+        key = None
+        for k in kconsts:
+            if k.endswith("_SZ_FO") and (k.replace("::", "_")[:-len("_SZ_FO")] == g):
+                key = k
+        if key is None:
+            raise ScrapeError("the harness does not print the constant of guard " + g)
+        szfo[g] = kconsts[key]
+    src = strip_comments(read("src/data/fixedstruct.rs"))
+    src_reader = strip_comments(read("src/readers/fixedstructreader.rs"))
+    rprogs, rtail = scrape_as_bytes(src, structs, kconsts, utnames)
+    sprogs = scrape_score(src, structs, kconsts, uttypes)
+    bonus_val, count_max = scrape_score_file_consts(src, src_reader)
+    order_fixed = scrape_candidate_order(src_reader)
+    order = kconsts["__order__"]
+    m = re.search(r"let\s+mut\s+buffer_utmp\s*:\s*\[u8;\s*ENTRY_SZ_MAX\s*\*\s*(\d+)\s*\]", strip_comments(read("src/bin/s4.rs")))
+    if not m:
+        raise ScrapeError("the print buffer `buffer_utmp: [u8; ENTRY_SZ_MAX * k]` not found in src/bin/s4.rs")
+    print_cap = int(m.group(1)) * consts[1]
+    fp = transcribed_fingerprint(src, src_reader)
+    if fp != FROZEN_FINGERPRINT:
+        raise ScrapeError("the text of the hand-transcribed macros / score_file / buffer_to_fixedstructptr changed "
+                          "(fingerprint %s, frozen %s): re-read them against Model/RecordRender.v and Model/LayoutDetect.v" % (fp, FROZEN_FINGERPRINT))
+    names = [r["name"] for r in rows]
+    if set(rprogs) != set(names) or set(sprogs) != set(names):
+        raise ScrapeError("as_bytes / score_fixedstruct arms do not cover exactly the FixedStructType variants")
     L = []
-    L.append("(* GENERATED by tools/gen/fixedstruct.py from the compiled constants of s4lib (harness `c08 layouts`)")
-    L.append("   and from fn filesz_to_types in src/data/fixedstruct.rs — do not edit. *)")
-    L.append("From Coq Require Import String List NArith.\nImport ListNotations.")
-    L.append("From S4.Base Require Import Bytes.\nFrom S4.Model Require Import Records.")
+    L.append("(* GENERATED by tools/gen/fixedstruct.py from the compiled constants of s4lib (harness `c08 layouts`, `c08 fields`),")
+    L.append("   from fn filesz_to_types, fn as_bytes and fn score_fixedstruct in src/data/fixedstruct.rs and from")
+    L.append("   fn score_file in src/readers/fixedstructreader.rs — do not edit. *)")
+    L.append("From Coq Require Import String List NArith ZArith.\nImport ListNotations.")
+    L.append("From S4.Base Require Import Bytes.\nFrom S4.Model Require Import Records RecordRender LayoutDetect.")
     L.append("Open Scope string_scope.\nOpen Scope N_scope.")
     L.append("(* mklayout name size offset_tv size_tv sec_off sec_len sec_signed usec_off usec_len *)")
     L.append("Definition fixedstruct_layouts : list layout := [")
@@ -129,8 +696,35 @@ def generate():
     L.append("Definition filesz_guards : list (bytes * bytes) := [")
     L.append(";\n".join("  (%s, %s)" % (cs(g), cs(t)) for g, t in guards))
     L.append("].")
+    L.append("(* filesz_to_types: const BONUS; score_file: COUNT_FOUND_ENTRIES_MAX (cfg(not(test))) *)")
+    L.append("Definition score_bonus : Z := %d.\nDefinition count_found_entries_max : nat := %d." % (bonus_val, count_max))
+    L.append("(* src/bin/s4.rs: the buffer as_bytes writes into, `buffer_utmp: [u8; ENTRY_SZ_MAX * k]` *)")
+    L.append("Definition print_buffer_cap : nat := %d." % print_cap)
+    L.append("(* the `module::NAME_SZ_FO` constants of the filesz_to_types guards, as compiled *)")
+    L.append("Definition filesz_guard_consts : list (bytes * N) := [")
+    L.append(";\n".join("  (%s, %d)" % (cs(g), szfo[g]) for g in sorted(set(g for g, _ in guards))))
+    L.append("].")
+    L.append("(* score_file: are the candidates sorted by `*fixedstructtype as usize` before the loop (true), or met in the")
+    L.append("   order of a HashMap (false)?  and the types in ascending discriminant order (compiled enum) *)")
+    L.append("Definition score_file_order_fixed : bool := %s." % cbool(order_fixed))
+    L.append("Definition candidate_order : list bytes := [%s]." % "; ".join(cs(t) for t in order))
+    L.append("(* UT_TYPE_VAL_TO_STR *)")
+    L.append("Definition ut_type_names : list bytes := [%s]." % "; ".join(cs(n) for n in utnames))
+    L.append("(* fn as_bytes: per type, the sequence of writes (field offsets, sizes and signedness from the compiled structs) *)")
+    L.append("Definition as_bytes_tail : bytes := %s." % cbytes(rtail))
+    L.append("Definition fixedstruct_render : list (bytes * list ritem) := [")
+    L.append(";\n".join("  (%s, [\n%s])" % (cs(n), ";\n".join("     %s" % coq_ritem(it, utnames) for it in rprogs[n] if it[0] != "mark")) for n in names))
+    L.append("].")
+    L.append("(* fn score_fixedstruct: per type, the sequence of scoring macros *)")
+    L.append("Definition fixedstruct_score : list (bytes * list sitem) := [")
+    L.append(";\n".join("  (%s, [\n%s])" % (cs(n), ";\n".join("     %s" % coq_sitem(it) for it in sprogs[n])) for n in names))
+    L.append("].")
     L.append("")
     changed = write_if_changed(os.path.join(GEN, "FixedStructTables.v"), "\n".join(L))
     with open(os.path.join(GEN, "fixedstruct_tables.json"), "w") as f:
-        json.dump(dict(layouts=rows, consts=consts, bonus=bonus, try_all=tryall, guards=guards), f)
+        json.dump(dict(layouts=rows, consts=consts, bonus=bonus, try_all=tryall, guards=guards,
+                       print_buffer_cap=print_cap, guard_consts=szfo, order_fixed=order_fixed, candidate_order=order, score_bonus=bonus_val, count_found_entries_max=count_max, ut_type_names=utnames,
+                       as_bytes_tail=rtail, render={n: [list(it) for it in rprogs[n]] for n in names},
+                       score={n: [list(it) for it in sprogs[n]] for n in names},
+                       structs={n: dict(struct=structs[n][0], fields={p: list(v) for p, v in structs[n][1].items()}) for n in names}), f)
     return changed
